@@ -267,6 +267,7 @@ type explorer struct {
 	splitAt                                                                       int
 	robust                                                                        bool
 	until                                                                         time.Time
+	cut                                                                           atomic.Bool
 	tasks                                                                         [][]op
 }
 
@@ -315,6 +316,7 @@ func (x *explorer) visit(w *world, path []op) bool {
 		return true
 	}
 	if x.r.OutOfTime() || (!x.until.IsZero() && time.Now().After(x.until)) {
+		x.cut.Store(true)
 		x.r.Incomplete(fmt.Sprintf("time budget: some subtrees of the depth-%d exploration (ids=%d, counts=%d) not explored", x.depth, x.cfg.ids, x.cfg.counts))
 		return true
 	}
@@ -395,6 +397,7 @@ func (x *explorer) visitRobust(path []op) {
 		return
 	}
 	if x.r.OutOfTime() || (!x.until.IsZero() && time.Now().After(x.until)) {
+		x.cut.Store(true)
 		x.r.Incomplete(fmt.Sprintf("time budget: some subtrees of the depth-%d exploration (ids=%d, counts=%d) not explored", x.depth, x.cfg.ids, x.cfg.counts))
 		return
 	}
@@ -504,20 +507,39 @@ func TestCheck(t *testing.T) {
 	classesBefore := classPoolDigest()
 
 	depth := ev.Pick(r, 4, 5)
-	x := &explorer{r: r, c: chk, cfg: alphaCfg{ids: 3, counts: 3, maxTx: 4}, depth: depth, until: share(0.6)}
-	runExplorer(x)
+	full := alphaCfg{ids: 3, counts: 3, maxTx: 4}
+	completed := 0
+	x := &explorer{r: r, c: chk, cfg: full, depth: 4, until: share(ev.Pick(r, 0.8, 0.2))}
+	runExplorer(x) // depth 4 with the full alphabet first, in both tiers
+	if !x.cut.Load() {
+		completed = 4
+	}
+	if r.Thorough() && !r.OutOfTime() {
+		// depth 5 (re-covers depth 4; the memoised functional checks are free the second time)
+		x5 := &explorer{r: r, c: chk, cfg: full, depth: 5, until: share(0.65)}
+		runExplorer(x5)
+		if !x5.cut.Load() && completed == 4 {
+			completed = 5
+		}
+		r.Set("A5_nodes", x5.nodes.Load())
+		r.Set("A5_transitions", x5.transitions.Load())
+		x.merge(x5)
+	}
 	r.Set("A_depth", int64(depth))
+	r.Set("A_note", "thorough executes the depth-4 tree twice (once alone, once as the top of the depth-5 tree); states/transitions count executions")
+	r.Set("A_depth_completed_full_alphabet", int64(completed))
 	if r.Thorough() && !r.OutOfTime() {
 		// depth 6 with the identifier/count alphabet halved (x,y; 0..1 txs + deltas); everything else unchanged
 		x6 := &explorer{r: r, c: chk, cfg: alphaCfg{ids: 2, counts: 2, maxTx: 3}, depth: 6, until: share(0.8)}
 		runExplorer(x6)
 		r.Set("A6_nodes", x6.nodes.Load())
 		r.Set("A6_transitions", x6.transitions.Load())
+		r.Set("A6_completed", !x6.cut.Load())
 		x.merge(x6)
 	}
 	// cross-validation of the memoisation: a shallower exploration with every functional check re-evaluated on every path
 	chk2 := &checker{r: r, canons: canons, noMemo: true, tallest: canons[4]}
-	x2 := &explorer{r: r, c: chk2, cfg: x.cfg, depth: ev.Pick(r, 2, 3), until: share(0.85)}
+	x2 := &explorer{r: r, c: chk2, cfg: full, depth: ev.Pick(r, 2, 3), until: share(0.9)}
 	runExplorer(x2)
 	r.Set("A_nomemo_depth", int64(x2.depth))
 	r.Set("A_nomemo_view_evaluations", chk2.evalReal.Load())
